@@ -73,20 +73,27 @@ Definition parse_vpn_all (v6 withdraw : bool) (d : bytes) : res (list proute) :=
 
 Definition vpn_afi (v6 : bool) : N := if v6 then AFI_INET6 else AFI_INET.
 
-(** construct_mpls_vpn_nexthop: RD of the next hop is always written as type 0 (asn:an) *)
-Definition construct_vpn_nexthop (v6 : bool) (asn an ip : N) : res bytes :=
+(** construct_mpls_vpn_nexthop: RD of the next hop is always written as type 0 (asn:an); the
+    address is netaddr.IPAddress(text).packed - 4 or 16 octets by the version of the ADDRESS
+    ([nh6]), whatever the family of the routes: an IPv6 next hop on VPNv4 routes (RFC 8950, the
+    'ext_nexthop' capability) is 8 + 16 octets, an IPv4 next hop on VPNv6 routes 8 + 4 *)
+Definition construct_vpn_nexthop_x (nh6 : bool) (asn an ip : N) : res bytes :=
   if (65535 <? asn) || (2 ^ 32 <=? an) then Exc
-  else Ok ([0; 0] ++ be 2 asn ++ be 4 an ++ (if v6 then be 16 ip else be 4 ip)).
+  else Ok ([0; 0] ++ be 2 asn ++ be 4 an ++ (if nh6 then be 16 ip else be 4 ip)).
+(** next hop of the routes' own family *)
+Definition construct_vpn_nexthop (v6 : bool) := construct_vpn_nexthop_x v6.
 
-(** MpReachNLRI.construct, SAFI 128 *)
-Definition reachvpn_construct (v6 : bool) (asn an ip : N) (rs : list vroute) : res bytes :=
-  bind (construct_vpn_nexthop v6 asn an ip) (fun nh =>
+(** MpReachNLRI.construct, SAFI 128: routes of family [v6], next hop of version [nh6] *)
+Definition reachvpn_construct_x (v6 nh6 : bool) (asn an ip : N) (rs : list vroute) : res bytes :=
+  bind (construct_vpn_nexthop_x nh6 asn an ip) (fun nh =>
   bind (construct_vpn v6 false rs) (fun nlri =>
   reach_attr (vpn_afi v6) SAFI_LAB_VPNUNICAST (len nh) nh nlri)).
+Definition reachvpn_construct (v6 : bool) := reachvpn_construct_x v6 v6.
 
 Definition reachvpn_result := (rdv * addr * list proute)%type.
 
-(** MpReachNLRI.parse, SAFI 128 *)
+(** MpReachNLRI.parse, SAFI 128: RD = the first 8 next-hop octets, address = ALL the octets after
+    them as one integer, whose magnitude decides between IPv4 and IPv6 text ([of_int]) *)
 Definition reachvpn_parse (v6 : bool) (v : bytes) : res reachvpn_result :=
   bind (reach_split v) (fun '(afi, safi, nh, nlri) =>
   if (afi =? vpn_afi v6) && (safi =? SAFI_LAB_VPNUNICAST) then
